@@ -2,6 +2,7 @@ package rules
 
 import (
 	"fmt"
+	"go/token"
 	"go/types"
 	"sort"
 
@@ -286,6 +287,93 @@ func runC09(c *Ctx) {
 			})
 		}
 		c.verdict(okNext, c.nm(fn)+" | catch-up fetches height curStamp.Height+1", c.P.Pos(fn.Pos()), "next header requested by height+1", "the catch-up branch does not fetch exactly the next height")
+	})
+
+	c.rule("C09.V2", "no spend of a watched outpoint is skipped: spendsWatchedInput compares every input of the transaction with every watched input: from each input the loop over the watch list is always entered, and for each (input, watched input) pair the comparison in.PreviousOutPoint == input.OutPoint is reached unless the watched entry is the zero outpoint (script matching); a match returns true", func() {
+		fn := c.fn("(*neutrino.rescanOptions).spendsWatchedInput")
+		prevOut := c.field(pWire, "TxIn", "PreviousOutPoint")
+		wOut := c.field("neutrino", "InputWithScript", "OutPoint")
+		fromField := func(f *types.Var) func(ssa.Value) bool {
+			return func(v ssa.Value) bool {
+				return ir.DerivesFrom(v, func(x ssa.Value) bool {
+					fa, ok := x.(*ssa.FieldAddr)
+					return ok && ir.FieldOfAddr(fa) == f
+				})
+			}
+		}
+		var cmps []ssa.Instruction
+		ir.Instrs(fn, func(in ssa.Instruction) {
+			b, ok := in.(*ssa.BinOp)
+			if !ok || b.Op != token.EQL {
+				return
+			}
+			if (fromField(prevOut)(b.X) && fromField(wOut)(b.Y)) || (fromField(prevOut)(b.Y) && fromField(wOut)(b.X)) {
+				cmps = append(cmps, in)
+			}
+		})
+		construct := c.nm(fn) + " | every (input, watched input) pair is compared by outpoint"
+		if len(cmps) != 1 {
+			c.fail(construct, c.P.Pos(fn.Pos()), fmt.Sprintf("%d comparison(s) in.PreviousOutPoint == input.OutPoint, 1 tabled", len(cmps)))
+			return
+		}
+		cmp := cmps[0]
+		// loops around the comparison, innermost first
+		var headers []*ssa.BasicBlock
+		for _, b := range fn.Blocks {
+			if len(ir.BackEdgesTo(b)) > 0 && ir.LoopBlocks(b)[cmp.Block()] {
+				headers = append(headers, b)
+			}
+		}
+		sort.Slice(headers, func(i, j int) bool { return len(ir.LoopBlocks(headers[i])) < len(ir.LoopBlocks(headers[j])) })
+		if len(headers) != 2 {
+			c.fail(construct, c.at(cmp), fmt.Sprintf("the comparison is nested in %d loop(s), 2 tabled (inputs x watch list)", len(headers)))
+			return
+		}
+		inner, outer := headers[0], headers[1]
+		bodyEdges := func(h *ssa.BasicBlock, what string) []start {
+			in := ir.LoopBlocks(h)
+			var out []start
+			for i, sc := range h.Succs {
+				if in[sc] {
+					out = append(out, atEdge(c, ir.Edge{From: h, Succ: i}, what))
+				}
+			}
+			return out
+		}
+		// the two ranged collections
+		okOver := ir.DerivesFrom(cmp.(*ssa.BinOp).X, func(v ssa.Value) bool { return loadsField(c.field(pWire, "MsgTx", "TxIn"))(v) }) || ir.DerivesFrom(cmp.(*ssa.BinOp).Y, func(v ssa.Value) bool { return loadsField(c.field(pWire, "MsgTx", "TxIn"))(v) })
+		okOver = okOver && (ir.DerivesFrom(cmp.(*ssa.BinOp).X, func(v ssa.Value) bool { return loadsField(c.field("neutrino", "rescanOptions", "watchInputs"))(v) }) || ir.DerivesFrom(cmp.(*ssa.BinOp).Y, func(v ssa.Value) bool { return loadsField(c.field("neutrino", "rescanOptions", "watchInputs"))(v) }))
+		c.verdict(okOver, c.nm(fn)+" | compares elements of tx.TxIn with elements of ro.watchInputs", c.at(cmp), "both operands are loop elements of the two lists", "the outpoint comparison is not between an input of the transaction and an entry of the watch list")
+		// (B) every input reaches the loop over the watch list
+		innerFirst := inner.Instrs[0]
+		c.mustFollowIter(fn, "each input of the transaction", bodyEdges(outer, "next input"), func(in ssa.Instruction) bool { return in == innerFirst }, "the loop over ro.watchInputs", nil, 1)
+		// (A) every pair reaches the comparison, except zero-outpoint entries
+		zero := find(fn, binops(eqOps, fromField(wOut), func(v ssa.Value) bool {
+			return ir.DerivesFrom(v, func(x ssa.Value) bool {
+				g, ok := x.(*ssa.Global)
+				return ok && g.Name() == "zeroOutPoint"
+			})
+		}))
+		cut := equalIs("input.OutPoint == zeroOutPoint", zero, true).cut()
+		zcut := ir.Cut{}
+		for _, z := range zero {
+			for _, br := range ir.EqBranches(z.(*ssa.BinOp)) {
+				zcut[br.Edge()] = true
+			}
+		}
+		_ = cut
+		c.mustFollowIter(fn, "each (input, watched input) pair", bodyEdges(inner, "next watched input"), func(in ssa.Instruction) bool { return in == cmp }, "in.PreviousOutPoint == input.OutPoint", zcut, 1)
+		// a match returns true
+		okTrue := false
+		for _, br := range ir.EqBranches(cmp.(*ssa.BinOp)) {
+			blk := br.Edge().From.Succs[br.Edge().Succ]
+			if r, ok := blk.Instrs[len(blk.Instrs)-1].(*ssa.Return); ok && len(r.Results) == 1 {
+				if k, isC := ir.ConstBool(r.Results[0]); isC && k {
+					okTrue = true
+				}
+			}
+		}
+		c.verdict(okTrue, c.nm(fn)+" | an outpoint match returns true", c.at(cmp), "return true on equality", "an outpoint match no longer returns true")
 	})
 
 	c.rule("C09.V1", "paysWatchedAddr: an output paying a watched address makes the created outpoint watched from then on (appended to both watchInputs and watchList)", func() {
